@@ -53,6 +53,13 @@ Proof.
 Qed.
 Print Assumptions C01_agrees_any_type.
 
+(* Python side (regenerated fact C01.Gen, re-extracted from cparser.py on every run): the packing
+   of a struct/union is the packed=/pack= option of the cdef() call that DEFINES it, whatever
+   earlier cdef() calls mentioned its tag.  Breaks (obligation) if the assignment moves. *)
+Theorem C01_defining_cdef_options : forall defining mention, struct_packed defining mention = defining.
+Proof. reflexivity. Qed.
+Print Assumptions C01_defining_cdef_options.
+
 (* the loop invariant itself: one iteration of the field loop (any member, any state) keeps
    pos = 8*byteoffset + bitoffset, bitoffset < 8, byteoffsetmax = ceil(maxend/8), equal
    alignments and equal (normalised) field lists *)
